@@ -286,6 +286,11 @@ type faultyStorage struct {
 
 func (f *faultyStorage) SaveLastSentCertificate(ctx context.Context, c types.Certificate) error {
 	f.calls++
+	if f.calls > 400 {
+		// a node configured to retry the save for ever and failing every time: the operator restarts it (the loop does not look at
+		// its context); for the bookkeeping this is a crash after the submission
+		panic(crashPanic{at: "after_submit"})
+	}
 	if f.failSaves > 0 {
 		f.failSaves--
 		f.fails++
